@@ -10,7 +10,15 @@ TRUSTED_BASE = [
 
 
 def unhex(h):
-    return b'' if h == '-' else bytes.fromhex(h)
+    if h == '-':
+        return b''
+    try:
+        return bytes.fromhex(h)
+    except ValueError:
+        # a field cut for display (compare() keeps the first 4000 characters of an answer)
+        import re as _re
+        m = _re.match(r'(?:[0-9a-fA-F]{2})*', h)
+        return bytes.fromhex(m.group(0)) + b'...'
 
 
 def txt(h):
@@ -204,12 +212,13 @@ PLANS = {
     ),
     'C12': dict(
         module='RucteProps.C12',
-        theorems=['Ructe.C12.applyWrite_post', 'Ructe.C12.incremental_eq_clean', 'Ructe.C12.second_run_silent', 'Ructe.C12.untouched_elsewhere', 'Ructe.C12.runLog_get'],
+        theorems=['Ructe.C12.applyWrite_post', 'Ructe.C12.incremental_eq_clean', 'Ructe.C12.second_run_silent', 'Ructe.C12.untouched_elsewhere', 'Ructe.C12.runLog_get',
+                  'Ructe.C12.history_then_run_eq_clean', 'Ructe.C12.crashedAt_complete', 'Ructe.C12.rerun_repairs_truncation'],
         runs=[dict(suite='script', mix='history', n=dict(quick=120, thorough=1200), projection='script+files+writes', tags=['C12'])],
         correspondence='OUT_DIR contents after a run and the set of physically rewritten files (mtime) vs Ructe.build / writeIfChanged on the observed prior OUT_DIR state',
         rule='edit histories (add / modify / delete / break templates, sub-directories, statics) of 1..4 edits with a run after each, output files replaced by garbage / non-UTF-8 / truncated at 0, mid, len-1 bytes; every run compared with a clean build into an empty directory; a directly repeated run must rewrite nothing; non-trivial = distinct run outputs',
         assumptions=['an output path is a file or absent', 'read_dir yields the same order for an unchanged directory'],
-        level_text='Proved for every prior OUT_DIR state (any earlier builds, truncations, garbage): applyWrite_post, runLog_get, incremental_eq_clean, untouched_elsewhere, stdout_independent, second_run_silent, silent_when_up_to_date, writes_subset. Tie on contents and physical writes (mtime); oracle: byte-identical to a clean build, repeated run writes nothing.',
+        level_text='Proved for every prior OUT_DIR state (any earlier builds, truncations, garbage): applyWrite_post, runLog_get, incremental_eq_clean, untouched_elsewhere, stdout_independent, second_run_silent, silent_when_up_to_date, writes_subset; the quantifier of the property is also constructed explicitly (crashedAt: a build that died at request k with the file cut at any length; afterHistory: any sequence of earlier builds over other inputs, each possibly dying) with history_then_run_eq_clean and rerun_repairs_truncation as corollaries. Tie on contents and physical writes (mtime); oracle: byte-identical to a clean build, repeated run writes nothing.',
         level_note='Trusted: Lean kernel; hand-written model; a crash during the run under test is outside the model (the theorem quantifies over what earlier crashes left).',
         design_ref='DESIGN.md §6 C12',
     ),
@@ -292,13 +301,14 @@ PLANS = {
     ),
     'C20': dict(
         module='RucteProps.C20',
-        theorems=['Ructe.C20.static_name_total', 'Ructe.C20.static_name_never_wrong', 'Ructe.C20.static_name_missing', 'Ructe.C20.pinned_counterexample', 'Ructe.C20.sass_css_added'],
+        theorems=['Ructe.C20.static_name_total', 'Ructe.C20.static_name_never_wrong', 'Ructe.C20.static_name_missing', 'Ructe.C20.pinned_counterexample', 'Ructe.C20.sass_css_added',
+                  'Ructe.C20.static_name_exact', 'Ructe.C20.static_name_nonmember_error', 'Ructe.C20.hashed_url_determines_name', 'Ructe.C20.publishedAs_hashed', 'Ructe.C20.publishedAs_verbatim', 'Ructe.C20.hashedForm_iff', 'Ructe.C20.pinned_ident_collision'],
         runs=[dict(suite='sass', features=['sass'], n=dict(quick=150, thorough=3000), projection='identity', tags=['C20'])],
         correspondence='what static_name("f") evaluates to inside add_sass_file (recovered from the published name of the compiled CSS) or the build error, vs Ructe.staticName on get_names() before the call',
         rule='sets of 1..6 previously added files from 30 names (dashes, dots, underscores, leading digits, spaces, every punctuation byte rsass accepts in a string, non-ASCII letters), added through add_file and add_file_data; one scss per reference; references to every member, to non-members and to a name never used; non-trivial = distinct queried names',
         assumptions=['rsass calls the builtin with the literal argument and fails the build on CallError (opaque)', 'the compiled CSS of `a{b:static_name("f")}` is `a{b:"<url>"}` (optionally behind a BOM / @charset)'],
-        level_text='Proved: static_name_total, static_name_stable, static_name_never_wrong, static_name_missing, sass_css_added (the CSS is published as <stem>-<hash of the css>.css for whatever rsass produced). Tie + oracle through add_sass_file with the real rsass (members added through add_file, add_file_data and add_file_as).',
-        level_note='Trusted: Lean kernel; hand-written model; rsass is opaque. Known finding: a non-member whose identifier equals a member\'s resolves to that member.',
+        level_text='Proved: static_name_total (every file added before is found and resolves to its published name: verbatim names by publishedAs_verbatim, hashed names by publishedAs_hashed + C07.slug_shape), static_name_stable, static_name_never_wrong, static_name_exact (whatever static_name(f) evaluates to is literally a published form of the REQUESTED name: f itself or stem-<8 bytes>.ext with the stem and extension of f), hashed_url_determines_name + static_name_nonmember_error (the hashed URL of a file g passes the test for f only if f and g have the same stem and extension: a name that was not added is a build error even when it shares its identifier with a member), static_name_missing, sass_css_added (the CSS is published as <stem>-<hash of the css>.css for whatever rsass produced). Tie + oracle through add_sass_file with the real rsass (members added through add_file, add_file_data and add_file_as).',
+        level_note='Trusted: Lean kernel; hand-written model; rsass is opaque.',
         design_ref='DESIGN.md §6 C20',
     ),
     'C03': dict(
